@@ -56,7 +56,7 @@ func init() {
 		},
 		Cases: func(tier string) int {
 			if tier == "thorough" {
-				return 7200 / c14group
+				return 4800 / c14group
 			}
 			return 1200 / c14group
 		},
